@@ -15,12 +15,12 @@ class Harness:
         self.it: Interp = make_interp(prog, extra, **kw)
         self._cache = {}
 
-    def ev(self, src: str, rel: str, **names):
+    def ev(self, _src: str, rel: str, **names):
         """Evaluate a *checker-written* driver expression (constructors / method calls on model objects) in the
         namespace of module ``rel``; the repository functions it reaches are interpreted from their AST."""
-        tree = self._cache.get(src)
+        tree = self._cache.get(_src)
         if tree is None:
-            tree = self._cache[src] = ast.parse(src, mode="eval").body
+            tree = self._cache[_src] = ast.parse(_src, mode="eval").body
         e = Env()
         e.vars["__relpath__"] = rel
         e.vars["__cls__"] = None
@@ -28,10 +28,10 @@ class Harness:
         self.it.steps = 0
         return self.it.eval(tree, e)
 
-    def outcome(self, src: str, rel: str, **names):
+    def outcome(self, _src: str, rel: str, **names):
         """('ok', value) | ('raise', exception type name) ; Unsupported propagates."""
         try:
-            return ("ok", self.ev(src, rel, **names))
+            return ("ok", self.ev(_src, rel, **names))
         except Raised as r:
             return ("raise", r.exc.tname)
 
